@@ -2,6 +2,7 @@ import Lean.Data.Json
 import DEvo.Graph.Ordered
 import DEvo.Graph.Batches
 import Codec
+import DEvo.Opt.Optimize
 
 /-! Line protocol driver: one JSON object per input line, one JSON object per output line.
 Only model modules (no Mathlib/Batteries) are imported, so this links as a `lean_exe`. -/
@@ -74,6 +75,20 @@ def handle (j : Json) : Except String Json := do
     pure (Json.mkObj [("diff", Codec.projDiffJ d),
       ("hint", Json.arr (hint.map (fun p => Json.arr #[Json.str p.1, Json.arr (p.2.map Codec.mutJ).toArray])).toArray),
       ("after", after)])
+  | "optimize" =>
+    let existing ← Codec.strList (← j.getObjVal? "existing")
+    let ms ← (← (← j.getObjVal? "mutations").getArr?).toList.mapM Codec.mutOf
+    let mj := fun (l : List Mutation) => Json.arr (l.map Codec.mutJ).toArray
+    match Opt.preprocess existing ms with
+    | .ok (out, arr) =>
+      -- second pass over the rewritten objects (EvolveAppTask.prepare, then _build_batches)
+      let second := match Opt.preprocess existing arr with
+        | .ok (out2, arr2) => Json.mkObj [("out", mj out2), ("arr", mj arr2)]
+        | .error (.keyError w) => Json.mkObj [("err", "KeyError"), ("where", w)]
+        | .error (.valueError w) => Json.mkObj [("err", "ValueError"), ("where", w)]
+      pure (Json.mkObj [("out", mj out), ("arr", mj arr), ("second", second)])
+    | .error (.keyError w) => pure (Json.mkObj [("err", "KeyError"), ("where", w)])
+    | .error (.valueError w) => pure (Json.mkObj [("err", "ValueError"), ("where", w)])
   | _ => .error s!"unknown op {op}"
 
 partial def loop (hin : IO.FS.Stream) (hout : IO.FS.Stream) : IO Unit := do
